@@ -48,7 +48,8 @@ class UIDv:
     def sym_getattr(self, I, name):
         if name in ("is_valid", "is_private", "is_transfer_syntax", "is_implicit_VR", "is_little_endian", "is_deflated",
                     "is_compressed"):
-            return I.fresh("bool", f"uid.{name}")
+            # a property of the UID VALUE: the same UID always answers the same (uninterpreted predicate of the identity)
+            return SV(z3.Function(f"uid_{name}", z3.IntSort(), z3.BoolSort())(self.ident), "bool")
         if name in ("name", "keyword"):
             return I.fresh("str", f"uid.{name}")
         return NotImplemented
